@@ -127,8 +127,40 @@ def run(ctx, chk):
         # None -> Err: an ok_or + `?` whose Err edge returns
         okor = [t for _, t in dec.calls() if callee(t) == "core::option::Option::<T>::ok_or"]
         resid = [t for _, t in dec.calls() if callee(t).endswith("FromResidual::from_residual") and t["dest"]["l"] == 0]
-        chk.require(bool(okor) and bool(resid), "C17-a/overflow-is-error", inst,
-                    "a failed checked operation is not turned into an error return", "ok_or(..)?", dec.sp())
+        as_error = bool(okor) and bool(resid)
+        if not as_error:
+            # spelled out: `match next { Some(v) => v, None => return Err(..) }`
+            for i in sorted(dec.reachable(0)):
+                t = dec.blocks[i]["term"]
+                if t["t"] != "switch":
+                    continue
+                e = pr.vx.operand(t["d"], i)
+                if e[0] != "discr":
+                    continue
+                v_ = pr.tr.value(t["d"])
+                if not (v_.kind == "rv" and v_.rv["r"] == "discr" and ty_str(v_.rv["of"]).startswith("core::option::Option<")):
+                    continue
+                from_checked = any(x[0] == "call" and x[1].endswith(("::checked_mul", "::checked_add", "Option::<T>::and_then"))
+                                   for x in walk(e)) or any(x[0] == "var" for x in walk(e))
+                if not from_checked:
+                    continue
+                none_t = dict((val, tb) for val, tb in t["targets"]).get(0, t["else"])
+                region = dec.reachable(none_t)
+                errs = 0
+                oks = 0
+                for j in sorted(region):
+                    if not dec.dominates(none_t, j):
+                        continue
+                    for st in dec.blocks[j]["stmts"]:
+                        if st["s"] == "assign" and st["p"]["l"] == 0 and not st["p"]["p"] and st["rv"]["r"] == "agg":
+                            if st["rv"].get("vname") == "Err":
+                                errs += 1
+                            else:
+                                oks += 1
+                if errs >= 1 and oks == 0:
+                    as_error = True
+        chk.require(as_error, "C17-a/overflow-is-error", inst,
+                    "a failed checked operation is not turned into an error return", "ok_or(..)? / None => return Err", dec.sp())
     chk.floor("BCD decoders", n_bcd, 5)
     # (b) + (e): pairing via the C01 machinery restricted to scalar/text encodings
     n_pairs = 0
@@ -182,9 +214,58 @@ def tags(chk, crates):
         e = strip_ref(e)
         return e[0] == "proj" and e[1][0] == "call" and e[1][1] == "zvt_builder::encoding::Encoding::decode" and \
             e[1][4][:2] == ("zvt_builder::encoding::BigEndian", "u8") and tuple(e[2]) == ("@Ok", "0", "0")
-    we = eq_consts(enc, ve, high_byte)
-    rd = eq_consts(dec, vd, first_byte)
-    wset, rset = {c for c, _, _ in we}, {c for c, _, _ in rd}
+    # Case split over the key byte (256 values, each decided by constant propagation along feasible paths -
+    # no execution): for which values is the two-byte form reachable, and can the one-byte result still be
+    # produced for them?  Independent of how the test is spelled (||, match, matches!, named flag, early return).
+    from mirlite import feasible_reach
+
+    def key_locals(body, vx, pred):
+        out = set()
+        for l in range(len(body.locals)):
+            ds = body.defs.get(l, [])
+            if len(ds) != 1 or ds[0][2] != "assign" or ds[0][3]["p"]["p"]:
+                continue
+            try:
+                e = vx.rvalue(ds[0][3]["rv"], ds[0][0])
+            except Exception:
+                continue
+            if pred(e):
+                out.add(l)
+        return out
+
+    def ok_returns(body):
+        out = set()
+        for i in sorted(body.reachable(0)):
+            if body.blocks[i]["term"]["t"] == "return":
+                out.add(i)
+        return out
+    wcalls = [(bb, t) for bb, t in enc.calls() if callee(t).endswith("u16>::to_be_bytes")]
+    rcalls = [(bb, t) for bb, t in dec.calls() if callee(t) == "zvt_builder::encoding::Encoding::decode" and
+              [ty_str(x) for x in t["f"]["a"]][:2] == ["zvt_builder::encoding::BigEndian", "u16"]]
+    wk, rk = key_locals(enc, ve, high_byte), key_locals(dec, vd, first_byte)
+    if not chk.require(len(wcalls) == 1 and len(rcalls) == 1 and wk and rk, "C17-c/present", "Encoding<Tag> two-byte form",
+                       "two-byte form or its selecting byte not found (writer calls %d, reader calls %d, key locals %d/%d)"
+                       % (len(wcalls), len(rcalls), len(wk), len(rk)), "", enc.sp(), nontrivial=False):
+        return
+    wset, rset = set(), set()
+    w_exclusive = r_exclusive = True
+    for v in range(256):
+        pw = {l: ("i", v) for l in wk}
+        pr_ = {l: ("i", v) for l in rk}
+        if wcalls[0][0] in feasible_reach(enc, 0, pins=pw):
+            wset.add(v)
+            # for a page value nothing but the two-byte form may be produced
+            if ok_returns(enc) & feasible_reach(enc, 0, cut_blocks=[wcalls[0][0]], pins=pw):
+                w_exclusive = False
+        if rcalls[0][0] in feasible_reach(dec, 0, pins=pr_):
+            rset.add(v)
+            rest = feasible_reach(dec, 0, cut_blocks=[rcalls[0][0]], pins=pr_)
+            for i in rest:
+                for st in dec.blocks[i]["stmts"]:
+                    if st["s"] == "assign" and st["p"]["l"] == 0 and not st["p"]["p"] and st["rv"]["r"] == "agg" and \
+                            st["rv"].get("vname") == "Ok":
+                        r_exclusive = False
+    chk.analysed["tag_page_case_split"] = {"values": 256, "writer_pages": sorted(wset), "reader_pages": sorted(rset)}
     chk.require(wset == TAG_PAGES, "C17-c/writer-pages", "Encoding<Tag>::encode",
                 "two-byte tags are written for high bytes %s, specification says %s" % (sorted(map(hex, wset)), sorted(map(hex, TAG_PAGES))),
                 "{0x1F, 0xFF}", enc.sp())
@@ -193,16 +274,10 @@ def tags(chk, crates):
                 "{0x1F, 0xFF}", dec.sp())
     chk.require(wset == rset, "C17-c/pages-agree", "Encoding<Tag>", "writer pages %s != reader pages %s" % (sorted(wset), sorted(rset)),
                 "agree", enc.sp(), nontrivial=False)
-    # two-byte form: writer to_be_bytes of the whole u16 under a page edge; reader BigEndian u16 decode under a page edge
-    wcalls = [(bb, t) for bb, t in enc.calls() if callee(t).endswith("u16>::to_be_bytes")]
-    ok = len(wcalls) == 1 and all(_under_any(enc, [(i, tt) for c, i, tt in we], wcalls[0][0]) for _ in [0])
-    chk.require(ok, "C17-c/two-byte-writer", "Encoding<Tag>::encode", "the two-byte form is not `tag.to_be_bytes()` on the page edges",
-                "to_be_bytes under page edge", enc.sp())
-    rcalls = [(bb, t) for bb, t in dec.calls() if callee(t) == "zvt_builder::encoding::Encoding::decode" and
-              [ty_str(x) for x in t["f"]["a"]][:2] == ["zvt_builder::encoding::BigEndian", "u16"]]
-    ok = len(rcalls) == 1 and _under_any(dec, [(i, tt) for c, i, tt in rd], rcalls[0][0])
-    chk.require(ok, "C17-c/two-byte-reader", "Encoding<Tag>::decode", "the two-byte form is not read as big-endian u16 on the page edges",
-                "BigEndian u16 under page edge", dec.sp())
+    chk.require(w_exclusive, "C17-c/two-byte-writer", "Encoding<Tag>::encode",
+                "for a two-byte page the writer can also produce a result that is not `tag.to_be_bytes()`", "to_be_bytes on every page path", enc.sp())
+    chk.require(r_exclusive, "C17-c/two-byte-reader", "Encoding<Tag>::decode",
+                "for a two-byte page the reader can also return a tag without reading the big-endian u16", "BigEndian u16 on every page path", dec.sp())
     # one-byte form: writer `tag as u8` array literal
     one = []
     for i in sorted(enc.reachable(0)):
